@@ -95,6 +95,26 @@ func (c02) ID() string           { return "C02" }
 func (c02) Runs(tier string) int { return tierLen(tier, 8000, 60000) }
 
 func (c02) Gen(r *kern.Rng, tier string, idx int) *Trace {
+	if idx%3989 == 7 {
+		// phase sweep: [literal, maximal match] units (the output advances by 259 per unit, both symbols share one
+		// multi-symbol table entry) behind a fresh head whose length is swept over 259 consecutive values, so that such an
+		// entry is decoded at every offset around the point where the 64 KiB history buffer is full, and a tail swept over
+		// 0..15 bytes, which moves the end of the input relative to it
+		k, u := r.Range(1, 40), r.Pick(1, 2, 3, 3)
+		w := &scen.WScen{Pkg: "flate", Ctor: "new", Level: r.Pick(1, 1, 1, 9)}
+		w.Data = scen.DataSpec{Kind: "units258", Seed: r.Uint64(), P1: 65278 - 259*k - 130}
+		w.Data.Len = w.Data.P1 + 259*(k+u)
+		// (a Flush after the head: the units get a Huffman block of their own, in which their codes are short)
+		w.Ops = []scen.WOp{{K: "w", N: w.Data.P1}, {K: "f"}, {K: "w", N: 1 << 30}, {K: "c"}}
+		sc := &scen.RScen{Pkg: "flate"}
+		sc.In.Parts = []scen.StreamSpec{{Enc: "std", W: w}}
+		sc.Src = genSrc(r, true)
+		if r.Pct(50) {
+			sc.Del = genDelivery(r)
+		}
+		sc.Reads = genReads(r)
+		return &Trace{Property: "C02", Family: "R-valid(phase sweep)", R: sc, Sweep: true, Stride: 259 * 16}
+	}
 	maxLen := tierLen(tier, 300000, 2<<20)
 	if r.Pct(70) {
 		maxLen = 100000
@@ -115,6 +135,41 @@ func (c02) Gen(r *kern.Rng, tier string, idx int) *Trace {
 }
 
 func (c02) Exec(tr *Trace, keep bool) *Outcome {
+	if tr.Sweep {
+		o := &Outcome{LevelIndep: true}
+		o.stat("phase_sweeps", 1)
+		h := uint64(0)
+		base := tr.R.In.Parts[0].W.Data
+		for d := 0; d < tr.Stride; d++ {
+			c := tr.Clone()
+			c.Sweep, c.Stride = false, 0
+			dd := &c.R.In.Parts[0].W.Data
+			dd.P1, dd.P2 = base.P1+d%259, d/259
+			dd.Len = dd.P1 + (base.Len - base.P1) + dd.P2
+			c.R.In.Parts[0].W.Ops[0].N = dd.P1
+			so := c02{}.Exec(c, keep)
+			o.Evals += so.Evals
+			o.Events += so.Events
+			o.LogHash = o.LogHash*0x100000001b3 ^ so.LogHash
+			if len(o.Sigs) < 16 {
+				o.Sigs = append(o.Sigs, so.Sigs...)
+			}
+			h = h*0x100000001b3 ^ so.Digest
+			for k, v := range so.Stats {
+				o.stat(k, v)
+			}
+			o.Violations = append(o.Violations, so.Violations...)
+			if len(o.Violations) > 3 {
+				break
+			}
+		}
+		if len(o.Sigs) > 16 {
+			o.Sigs = o.Sigs[:16]
+		}
+		o.Digest = h
+		o.Sample = fmt.Sprintf("phase sweep: units258 head %d.. tail %d.. level %d, %d streams; %s", base.P1, base.P2, tr.R.In.Parts[0].W.Level, tr.Stride, rSample(tr.R))
+		return o
+	}
 	o := &Outcome{}
 	sc := tr.R
 	rec, log := runR(sc, true, keep)
